@@ -24,7 +24,7 @@ EXPLANATION = 'theorems about the model fixWindow; correspondence of the produce
 
 
 def scenarios(seed, tier):
-    n = 100 if tier == 'quick' else 1200
+    n = 250 if tier == 'quick' else 2500
     rnd = random.Random(seed * 7919 + 15)
     for i in range(n):
         r2 = random.Random(rnd.getrandbits(48))
